@@ -202,3 +202,24 @@ Definition complete_certs_on (atoms : list (bytes * N)) (fl : vflags) (s : bytes
 
 Definition complete_certs (cr : crules) (sidx : N) (fl : vflags) (s : bytes) (m : tmods) : bool :=
   complete_certs_on (atoms_of cr sidx) fl s m.
+
+(* ---------------------------------------------------------------- the fast-mode shortcut of yr_scan_verify_match:
+   a string that is only used as `$s` (STRING_FLAGS_SINGLE_MATCH) is not verified again once it has a match *)
+Definition verify_hits_fast (cr : crules) (sidx : N) (fl : vflags) (s : bytes) (fixed : option N) (buf : bytes)
+           (i : nat) (acc : list (nat * (N * N))) : list (nat * (N * N)) :=
+  fold_left (fun acc mu =>
+    match acc with
+    | _ :: _ => acc
+    | [] =>
+      let am := pool_at cr mu in
+      if am_string am =? sidx then
+        let off := (i - N.to_nat (am_backtrack am))%nat in
+        match verify_literal fl s (am_backtrack am) fixed buf off with
+        | Some lk => add_match (off, lk) acc
+        | None => acc
+        end
+      else acc
+    end) (hits_at cr buf i) acc.
+
+Definition scan_string_fast (cr : crules) (sidx : N) (fl : vflags) (s : bytes) (fixed : option N) (buf : bytes) : list (nat * (N * N)) :=
+  fold_left (fun acc i => verify_hits_fast cr sidx fl s fixed buf i acc) (seq 0 (S (length buf))) [].
